@@ -91,7 +91,7 @@ static int g_nconn = 1;
 static struct xcm_socket *g_server;
 static char g_lc[12], g_ls[12], g_legs[32], g_script[16], g_certs[256];
 static char g_raddr[128], g_saddr[128];
-static int g_bytestream, g_gran_api, g_first_cap = MAXMSG;
+static int g_bytestream, g_gran_api, g_dev_relay_only, g_first_cap = MAXMSG;
 static int64_t g_t0;
 
 /* relay */
@@ -108,6 +108,7 @@ struct rleg {
 struct rpair {
     struct rleg leg[2];      /* 0 = towards the client, 1 = towards the server */
     int terminated, reason;
+    int conn;                /* index of the client/server pair it carries, -1 = not known yet */
     xrelay_err_cb cb;
     void *cb_data;
 };
@@ -181,6 +182,22 @@ static const char *legname(int pair, int leg)
     return b;
 }
 
+/* which connection opens with these bytes (first message / first stream bytes of a side)? */
+static int whose_opening(int from_server, const unsigned char *buf, int rc)
+{
+    for (int k = 0; k < g_nconn; k++) {
+        struct side *x = from_server ? &S[k] : &C[k];
+        for (int i = 0; i < x->nops; i++)
+            if (x->ops[i].k == OP_SEND) {
+                int n = rc < x->ops[i].len ? rc : x->ops[i].len;
+                if ((g_bytestream || rc == x->ops[i].len) && pay_diff(buf, x->ops[i].m, n) < 0)
+                    return k;
+                break;
+            }
+    }
+    return -1;
+}
+
 int __wrap_xcm_send(struct xcm_socket *s, const void *buf, size_t len)
 {
     if (!in_relay())
@@ -221,6 +238,8 @@ int __wrap_xcm_receive(struct xcm_socket *s, void *buf, size_t cap)
         if (g && rc > 0) {
             g->n_rcv++;
             g->b_rcv += rc;
+            if (g_rp[p].conn < 0)
+                g_rp[p].conn = whose_opening(l == 1, buf, rc);
         }
     }
     errno = e;
@@ -314,6 +333,7 @@ struct xrelay *__wrap_xrelay_create(struct xcm_socket *conn0, struct xcm_socket 
     rp->leg[0].open = rp->leg[1].open = 1;
     rp->cb = err_cb;
     rp->cb_data = cb_data;
+    rp->conn = -1;
     mc_observe("R r%d created", g_nrp - 1);
     return __real_xrelay_create(conn0, conn1, relay_term_cb, rp, event_base);
 }
@@ -326,9 +346,15 @@ static void relay_fatal(void *arg)
                  "(%d relay(s) created)", g_nrp);
 }
 
+static void task_client(void *arg);
+
 static void task_relay(void *arg)
 {
     (void)arg;
+    /* start-up order T, R, C is fixed: the prologues of the server application (await on its listening
+       socket) and of the relay (first epoll_wait) touch nothing the others can see, so their relative
+       order is not a schedule worth enumerating */
+    mc_task_create("C", task_client, NULL);
     for (;;) {
         /* sleeps exactly when the real process would sleep in epoll_wait */
         mc_wait_readable(g_evfd, "relay-idle");
@@ -915,6 +941,10 @@ static int ensure_bound(struct side *x)
 static void task_server(void *arg)
 {
     (void)arg;
+    API("xcm_await", 1, xcm_await(g_server, XCM_SO_ACCEPTABLE));
+    g_relay_task = mc_task_create("R", task_relay, NULL);
+    if (g_dev_relay_only)
+        env_cfg()->only_task = g_relay_task;
     for (const char *p = g_sprog; *p; p++) {
         struct side *x = &S[*p - '0'];
         g_cur[1] = x;
@@ -1117,6 +1147,28 @@ static void relay_summary(char *b, size_t n)
                       g_rp[p].terminated ? (g_rp[p].reason ? " terminated:error" : " terminated:leg-closed") : "");
 }
 
+static struct rpair *pair_of_conn(int k)
+{
+    int claimed[MAXCONN] = { 0 };
+    for (int p = 0; p < g_nrp; p++)
+        if (g_rp[p].conn >= 0) {
+            if (g_rp[p].conn == k)
+                return &g_rp[p];
+            claimed[g_rp[p].conn] = 1;
+        }
+    /* pairs that never obtained an opening message: in order of creation (the relay's listen queue is FIFO) */
+    for (int p = 0; p < g_nrp; p++)
+        if (g_rp[p].conn < 0)
+            for (int c = 0; c < g_nconn; c++)
+                if (!claimed[c]) {
+                    if (c == k)
+                        return &g_rp[p];
+                    claimed[c] = 1;
+                    break;
+                }
+    return NULL;
+}
+
 static void final_checks(enum mc_end end)
 {
     char d[2 * MAXCONN][120], rs[400], all[700];
@@ -1170,12 +1222,31 @@ static void final_checks(enum mc_end end)
                 continue;
             mc_count(1, 1);     /* close-order verdicts evaluated */
             int missing = g_bytestream ? rx->bytes_rcv != tx->bytes_sent_acc : rx->n_rcv != tx->n_acc;
-            if (missing)
-                mc_violation(sg("C20/eof-before-all-%s/closer=%s", g_bytestream ? "bytes" : "messages", role(tx)),
-                             "%s had %d sends (%lld bytes) accepted, flushed them (xcm_finish returned 0) and closed; %s saw the "
-                             "close (xcm_receive returned 0) after only %d messages (%lld bytes); relay:%s",
+            if (missing) {
+                /* where did they get lost?  (the relay's own ledger: what it obtained on the closer's leg and
+                   what its xcm_send calls accepted on the other leg) */
+                struct rpair *rp = pair_of_conn(k);
+                int src = tx->is_server ? 1 : 0;
+                const char *where = "src-leg", *tp = src ? g_ls : g_lc;
+                if (rp) {
+                    int64_t acc = g_bytestream ? tx->bytes_sent_acc : tx->n_acc;
+                    int64_t got = g_bytestream ? rp->leg[src].b_rcv : rp->leg[src].n_rcv;
+                    int64_t fwd = g_bytestream ? rp->leg[1 - src].b_snd : rp->leg[1 - src].n_snd;
+                    if (got >= acc) {
+                        where = fwd >= acc ? "dst-leg" : "in-relay";
+                        tp = src ? g_lc : g_ls;
+                    }
+                }
+                char sig[160];
+                snprintf(sig, sizeof sig, "C20/eof-before-all-%s/lost-at=%s/tp=%s", g_bytestream ? "bytes" : "messages", where, tp);
+                mc_violation(sig, "%s had %d sends (%lld bytes) accepted, flushed them (xcm_finish returned 0) and closed; %s saw the "
+                             "close (xcm_receive returned 0) after only %d messages (%lld bytes) [legs %s, %s]; relay:%s",
                              tx->name, tx->n_acc, (long long)tx->bytes_sent_acc, rx->name, rx->n_rcv,
-                             (long long)rx->bytes_rcv, rs);
+                             (long long)rx->bytes_rcv, g_legs,
+                             !strcmp(where, "src-leg") ? "the relay never obtained them from the closer's leg" :
+                             !strcmp(where, "dst-leg") ? "the relay's xcm_send accepted all of them on the other leg, which it then closed" :
+                             "the relay obtained them but did not pass all of them on", rs);
+            }
         }
 }
 
@@ -1184,12 +1255,13 @@ static void final_checks(enum mc_end end)
 /* ====================================================================================== */
 static void mk_addr(char *out, size_t n, const char *tp, int which)
 {
+    /* unique per process without any shared state: the pid is spelled into a loopback address (utls derives
+       a UX name in the global abstract namespace from "ip:port", and other harnesses use 127.0.0.1) */
     int id = getpid();
-    int port = which == 0 ? 20000 + id % 20000 : 45000 + id % 15000;
     if (!strcmp(tp, "ux"))
         snprintf(out, n, "ux:mcxr-%d-%d", id, which);
     else
-        snprintf(out, n, "%s:127.0.0.1:%d", tp, port);
+        snprintf(out, n, "%s:127.%d.%d.%d:%d", tp, 64 + ((id >> 16) & 0x3f), (id >> 8) & 0xff, id & 0xff, 4711 + which);
 }
 
 static int find_libevent_epfd(const unsigned char *before)
@@ -1230,6 +1302,7 @@ static void scenario(const char *params)
     param_get(params, "script", g_script, sizeof g_script, "R1");
     param_get(params, "certs", g_certs, sizeof g_certs, "");
     g_gran_api = strcmp(param_get(params, "gran", b, sizeof b, "loop"), "api") == 0;
+    g_dev_relay_only = strcmp(param_get(params, "dev", b, sizeof b, "all"), "relay") == 0;
     snprintf(g_legs, sizeof g_legs, "%s-%s", g_lc, g_ls);
     g_bytestream = g_lc[0] == 'b';
     if ((g_ls[0] == 'b') != g_bytestream)
@@ -1292,9 +1365,7 @@ static void scenario(const char *params)
         mc_fail("internal/rserver-start", "rserver_start failed");
 
     g_t0 = env_now_ns();
-    mc_task_create("C", task_client, NULL);
     mc_task_create("T", task_server, NULL);
-    g_relay_task = mc_task_create("R", task_relay, NULL);
     enum mc_end end = mc_run((int)param_int(params, "horizon", 3000));
     mc_observe("end=%d", end);
     final_checks(end);
